@@ -3,6 +3,7 @@ import AdfObdd.Grounded
 import AdfObdd.PreGround2
 import AdfObdd.Stable
 import AdfObdd.MemoTransparent
+import AdfObdd.PersistAnswers
 /-! # C14 — persistence round trips preserve handles and answers
 
 `Persist.PBdd` / `PAdf` are `Bdd` / `Adf` with the serde-skipped bookkeeping explicit.  Two round
@@ -10,7 +11,9 @@ trips: (1) `export → import → fix_import` (serde derives + `vectorize` + `Bd
 (2) the node-list rebuild `Bdd::from(Vec<BddNode>)` inside `Adf::from((ordering, bdd, ac))` as the
 web service does through its string DTO.  The original may be at any point of its life: the only
 hypothesis is that its store is well formed (`WF`, preserved by every operation: C06/C07), memo
-tables arbitrary.  `serde_json` and `usize::to_string`/`parse` are assumptions (`Codec.ok`). -/
+tables arbitrary.  `serde_json`'s text layer is not modelled (the export passes the node vector
+through); the DTO's decimal strings are: `Persist.decimalCodec` (`Nat.repr`/`String.toNat?`) is a
+concrete `Codec`, see `simplified_roundtrip_decimal`. -/
 namespace C14
 open Persist Std
 
@@ -98,11 +101,9 @@ theorem grounded_after_roundtrip (a : PAdf) (w : WF a.bdd.st) (hv : ∀ t ∈ a.
 
 /-- further diagram operations on the round-tripped object and on a never-exported twin (same node
 table and history, any memo contents on either side): every issued handle denotes the same Boolean
-function on both.  PARTIAL with respect to the property's wording "identical node numbering" for
-nodes created *after* the round trip: that the two runs also allocate the same handle numbers is
-cache transparency of the allocation order (warm vs cold memo tables); it is not proved here and
-is what the correspondence run observes (`~ twin=1` on every later operation and query). -/
-theorem future_ops_same_functions_partial (ops : List Op) (s s' : Store) (hist : List Nat) (fs : List BoolFn)
+function on both. (Formerly `…_partial`: the missing half — the two runs also allocate the same
+handle NUMBERS — is `future_ops_same_handles` below.) -/
+theorem future_ops_same_functions (ops : List Op) (s s' : Store) (hist : List Nat) (fs : List BoolFn)
     (w : WF s) (w' : WF s') (hn : s'.nodes = s.nodes) (h : HistOK s hist fs) (hv : opsValid ops hist.length)
     (k : Nat) (hk : k < (runOps ops s hist).2.length) (σ : Asg) :
     eval (runOps ops s' hist).1 (hget (runOps ops s' hist).2 k) σ =
@@ -114,7 +115,7 @@ theorem future_ops_same_functions_partial (ops : List Op) (s s' : Store) (hist :
   have hk' : k < (runOps ops s' hist).2.length := by rw [b.len, ← a.len]; exact hk
   rw [(a.ok k hk).2 σ, (b.ok k hk').2 σ]
 
-/-- closes the gap named in `future_ops_same_functions_partial`: the two runs also issue the same
+/-- strengthens `future_ops_same_functions`: the two runs also issue the same
 handle NUMBERS and build the same node table (memo transparency, `runOps_memo_transparent`) -/
 theorem future_ops_same_handles (ops : List Op) (s s' : Store) (hist : List Nat) (fs : List BoolFn)
     (w : WF s) (w' : WF s') (hn : s'.nodes = s.nodes) (h : HistOK s hist fs) (hv : opsValid ops hist.length) :
@@ -177,8 +178,7 @@ theorem export_never_overwrites (fs : String → Option String) (path c1 c2 : St
       rw [h1]
       simp [cliExport, exportAction]
 
-/-! non-vacuity: the fresh object is healthy; a codec exists only as an assumption, so the DTO
-theorem is exercised by the harness; the misuse example above is concrete -/
+/-! non-vacuity: the fresh object is healthy; the misuse example above is concrete -/
 example : WF PBdd.new.st := WF_init
 example : DepsOK PBdd.new.st PBdd.new.deps :=
   ⟨rfl, fun t ht => by
@@ -198,7 +198,155 @@ example :
   ⟨h.1.1, h.2.1⟩
 example : ∃ fs, HistOK PBdd.new.st [0, 1] fs := ⟨_, HistOK.init⟩
 
+/-! ## answers after the round trips, semantics by semantics (review top-10)
+
+`answers_equal` above is a congruence (any function of the node table / of the denotations gives
+equal results on equal inputs). The theorems below are about the searches of the model RUN on the
+round-tripped object, where they start with cold memo tables and create their own further nodes:
+by the exactness theorems of C01–C05 each answer list, read as three-valued interpretations, is a
+function of the Boolean functions of the acceptance conditions, and both round trips preserve these
+(`Persist.roundtrip_sameFns`). `SameAnswers l l'` = both lists are duplicate free and have the
+same members (so they are permutations of each other; that the ORDER is the same as well is not
+proved here — it is what the correspondence run observes). -/
+
+/-- hypotheses shared by the instantiated theorems: both round trips yield a well-formed store in
+which the root handles are valid and denote the original's functions -/
+theorem roundtrips_same_functions (a : PAdf) (w : WF a.bdd.st) (hv : ∀ t ∈ a.ac, t < a.bdd.st.nodes.size) :
+    SameFns a.bdd.st (fixImportA (importA (exportA a))).bdd.st a.ac ∧
+    SameFns a.bdd.st (rebuildP a.bdd.st.nodes).st a.ac := roundtrip_sameFns a w hv
+
+/-- **complete** (`Adf::complete`) after either round trip -/
+theorem complete_after_roundtrip (a : PAdf) (w : WF a.bdd.st) (hv : ∀ t ∈ a.ac, t < a.bdd.st.nodes.size) :
+    let j := fixImportA (importA (exportA a))
+    let r := rebuildP a.bdd.st.nodes
+    let n := a.ac.length
+    SameAnswers (dec3 (completeAll j.bdd.st n j.ac).2.2) (dec3 (completeAll a.bdd.st n a.ac).2.2) ∧
+    SameAnswers (dec3 (completeAll r.st n a.ac).2.2) (dec3 (completeAll a.bdd.st n a.ac).2.2) :=
+  let h := roundtrip_sameFns a w hv
+  ⟨h.1.complete _ rfl, h.2.complete _ rfl⟩
+
+/-- **stable** (`Adf::stable`) and **stable with pre-filter** (`Adf::stable_with_prefilter`) after
+either round trip -/
+theorem stable_after_roundtrip (a : PAdf) (w : WF a.bdd.st) (hv : ∀ t ∈ a.ac, t < a.bdd.st.nodes.size) :
+    let j := fixImportA (importA (exportA a))
+    let r := rebuildP a.bdd.st.nodes
+    let n := a.ac.length
+    SameAnswers (dec3 (stableAll j.bdd.st n j.ac).2) (dec3 (stableAll a.bdd.st n a.ac).2) ∧
+    SameAnswers (dec3 (stableAll r.st n a.ac).2) (dec3 (stableAll a.bdd.st n a.ac).2) ∧
+    SameAnswers (dec3 (Cli.stablePre j.bdd.st n j.ac).2) (dec3 (Cli.stablePre a.bdd.st n a.ac).2) ∧
+    SameAnswers (dec3 (Cli.stablePre r.st n a.ac).2) (dec3 (Cli.stablePre a.bdd.st n a.ac).2) :=
+  let h := roundtrip_sameFns a w hv
+  ⟨h.1.stable _ rfl, h.2.stable _ rfl, h.1.stablePre _ rfl, h.2.stablePre _ rfl⟩
+
+/-- **counting-guided stable search** (`stable_count_optimisation_heu_a/b`) after either round
+trip, for any choice of the two heuristics on either side -/
+theorem count_search_after_roundtrip (a : PAdf) (w : WF a.bdd.st) (hv : ∀ t ∈ a.ac, t < a.bdd.st.nodes.size)
+    (useA useA' : Bool) :
+    let j := fixImportA (importA (exportA a))
+    let r := rebuildP a.bdd.st.nodes
+    let n := a.ac.length
+    SameAnswers (dec3 (countAll j.bdd.st n j.ac useA').2) (dec3 (countAll a.bdd.st n a.ac useA).2) ∧
+    SameAnswers (dec3 (countAll r.st n a.ac useA').2) (dec3 (countAll a.bdd.st n a.ac useA).2) :=
+  let h := roundtrip_sameFns a w hv
+  ⟨h.1.count _ rfl useA useA', h.2.count _ rfl useA useA'⟩
+
+/-- **nogood-learning search** (`Adf::stable_nogood` / `two_val_nogood`) after either round trip:
+there are fuels within which the loops halt on the original and on the round-tripped object, and
+the emitted lists have the same members, none repeated — any heuristics on either side. In
+two-valued mode (`stable = false`) the side condition of C05 (the conditions look at statements
+only) is assumed of the ORIGINAL; it transfers. -/
+theorem nogood_search_after_roundtrip (a : PAdf) (w : WF a.bdd.st) (hv : ∀ t ∈ a.ac, t < a.bdd.st.nodes.size)
+    (heu heu' : SM.Heu) (stable : Bool)
+    (hs : stable = false → ∀ t ∈ a.ac, ∀ σ τ : Asg, (∀ i, i < a.ac.length → σ i = τ i) →
+      eval a.bdd.st t σ = eval a.bdd.st t τ) :
+    let j := fixImportA (importA (exportA a))
+    let r := rebuildP a.bdd.st.nodes
+    let n := a.ac.length
+    (∃ fuel fuel', (SM.ngSearch heu fuel a.bdd.st n a.ac stable).2.2.2 = true ∧
+      (SM.ngSearch heu' fuel' j.bdd.st n j.ac stable).2.2.2 = true ∧
+      SameAnswers (dec3 (SM.ngSearch heu' fuel' j.bdd.st n j.ac stable).2.1)
+                  (dec3 (SM.ngSearch heu fuel a.bdd.st n a.ac stable).2.1)) ∧
+    (∃ fuel fuel', (SM.ngSearch heu fuel a.bdd.st n a.ac stable).2.2.2 = true ∧
+      (SM.ngSearch heu' fuel' r.st n a.ac stable).2.2.2 = true ∧
+      SameAnswers (dec3 (SM.ngSearch heu' fuel' r.st n a.ac stable).2.1)
+                  (dec3 (SM.ngSearch heu fuel a.bdd.st n a.ac stable).2.1)) := by
+  intro j r n
+  have h := roundtrip_sameFns a w hv
+  have ⟨f, f', a1, a2, a3, a4, a5⟩ := h.1.ng n rfl heu heu' stable hs
+  have ⟨g, g', b1, b2, b3, b4, b5⟩ := h.2.ng n rfl heu heu' stable hs
+  exact ⟨⟨f, f', a1, a2, a3, a4, a5⟩, ⟨g, g', b1, b2, b3, b4, b5⟩⟩
+
+/-- grounded after the node-list rebuild (the export/import case is `grounded_after_roundtrip`) -/
+theorem grounded_after_rebuild (a : PAdf) (w : WF a.bdd.st) (hv : ∀ t ∈ a.ac, t < a.bdd.st.nodes.size) :
+    (groundedLoop StoreRA (a.ac.length + 1) (rebuildP a.bdd.st.nodes).st a.ac).2.map storeIsConst =
+    (groundedLoop StoreRA (a.ac.length + 1) a.bdd.st a.ac).2.map storeIsConst :=
+  (roundtrip_sameFns a w hv).2.grounded
+
+/-! ### the text level: a concrete codec
+
+`serde_json` itself is not modelled: `exportB`/`importB` pass the node vector through and only the
+`vectorize` step of the unique table is explicit (`import_nodes` is `rfl` for that reason). For the
+web service's DTO, whose fields are decimal strings, the codec is concrete:
+`Persist.decimalCodec` = (`Nat.repr`, `String.toNat?`) — what `usize::to_string` and
+`str::parse::<usize>` compute on the decimal digits — with the standard library's round-trip
+theorem `Nat.toNat?_repr`. -/
+
+/-- `simplified_roundtrip` with the concrete decimal codec: no codec hypothesis left -/
+theorem simplified_roundtrip_decimal (a : PAdf) (w : WF a.bdd.st) :
+    ∃ r, fromSimplified decimalCodec (toSimplified decimalCodec a) = some r ∧ r.names = a.names ∧
+      r.ac = a.ac ∧ r.bdd.st.nodes = a.bdd.st.nodes ∧ WF r.bdd.st ∧ DepsOK r.bdd.st r.bdd.deps :=
+  simplified_roundtrip decimalCodec a w
+
+/-- the codec is not the identity in disguise: strings that are not decimal numerals are rejected
+(the `unwrap` panic of `From<SimplifiedAdf>`), so `fromSimplified` can fail -/
+example : fromSimplified decimalCodec ⟨[], [("0", "x", "1")], []⟩ = none ∧
+    decimalCodec.dec "" = none := by
+  constructor
+  · have : decimalCodec.dec "x" = none := by
+      show String.toNat? "x" = none
+      rw [String.toNat?_eq_none_iff]
+      apply Bool.eq_false_iff.mpr
+      intro h
+      have := (String.isNat_iff.mp h).2.1 'x' (by simp)
+      revert this; decide
+    simp [fromSimplified, decNode, this]
+  · show String.toNat? "" = none
+    rw [String.toNat?_eq_none_iff]
+    exact Bool.eq_false_iff.mpr (fun h => (String.isNat_iff.mp h).1 rfl)
+
+/-- the object used for non-vacuity: one statement `a` with condition `a` (handle 2 = x0) -/
+def x0Adf : PAdf :=
+  { names := ["a"], bdd := ⟨(mkNode Store.init 0 0 1).1, #[[], [], [0]], {}⟩, ac := [2] }
+
+theorem x0Adf_ok : WF x0Adf.bdd.st ∧ ∀ t ∈ x0Adf.ac, t < x0Adf.bdd.st.nodes.size := by
+  constructor
+  · exact (mkNode_spec Store.init WF_init 0 0 1 (by simp [Store.init]) (by simp [Store.init])
+      (by simp [VBOT]) (by simp [topVar, Store.init, VBOT]) (by simp [topVar, Store.init, VTOP])).1
+  · intro t ht
+    have : t = 2 := by simpa [x0Adf] using ht
+    subst this
+    simp [x0Adf, mkNode, Store.init]
+
+/-- non-vacuity: on `x0Adf` (a non-terminal root, a store with an inner node) the hypotheses of all
+the instantiated theorems hold, so e.g. the stable models computed after the JSON round trip and
+after the DTO round trip are those of the original, and the DTO of the object decodes -/
+example :
+    SameAnswers (dec3 (stableAll (fixImportA (importA (exportA x0Adf))).bdd.st 1 [2]).2)
+                (dec3 (stableAll x0Adf.bdd.st 1 [2]).2) ∧
+    SameAnswers (dec3 (countAll (rebuildP x0Adf.bdd.st.nodes).st 1 [2] false).2)
+                (dec3 (countAll x0Adf.bdd.st 1 [2] true).2) ∧
+    (∃ r, fromSimplified decimalCodec (toSimplified decimalCodec x0Adf) = some r ∧ r.ac = [2]) :=
+  ⟨(stable_after_roundtrip x0Adf x0Adf_ok.1 x0Adf_ok.2).1,
+   (count_search_after_roundtrip x0Adf x0Adf_ok.1 x0Adf_ok.2 true false).2,
+   let ⟨r, h, _, hac, _⟩ := simplified_roundtrip_decimal x0Adf x0Adf_ok.1
+   ⟨r, h, hac⟩⟩
+
 end C14
 
 #print axioms C14.future_ops_same_handles
 #print axioms C14.future_ops_same_handles_roundtrips
+#print axioms C14.complete_after_roundtrip
+#print axioms C14.stable_after_roundtrip
+#print axioms C14.count_search_after_roundtrip
+#print axioms C14.nogood_search_after_roundtrip
+#print axioms C14.simplified_roundtrip_decimal
